@@ -623,8 +623,39 @@ def main():
             print('VIOLATION property=%s replay=%s%s' % (prop, path, tail))
         sys.exit(1)
     if undecided:
+        # The proof attempt did not happen (lost anchor, unsupported construct, solver limit).  A bounded
+        # stand-in is run instead: the replay oracles of this property on the real code.  A failing input
+        # found this way is a genuine counterexample (it is replayed against the real crate), so it is
+        # reported; finding none decides nothing and the answer stays UNDECIDED.
+        found = []
+        if not a.replay:
+            binp, err = build_replay(a.repo)
+            if binp:
+                for oname in sorted(set(cfg.get('oracles', {}).values())):
+                    try:
+                        wit, summ = find_witness(binp, oname, seed)
+                    except subprocess.TimeoutExpired:
+                        continue
+                    if wit:
+                        full = 'bounded stand-in (proof undecided): oracle %s' % oname
+                        case = wit['case']
+                        if any(k['property'] == prop and k['obligation'] == full and k['input'] == case for k in known):
+                            print('KNOWN-FINDING: property=%s %s input=%s' % (prop, full, case))
+                            continue
+                        h = hashlib.sha1((full + case).encode()).hexdigest()[:10]
+                        path = os.path.join(BUILD, 'replay_cases', '%s-%s.json' % (prop, h))
+                        json.dump({'property': prop, 'obligation': full, 'verifier_message': 'UNDECIDED: ' + '; '.join(undecided),
+                                   'verifier_output': 'the deductive check was undecided (%s); this failing input was found by the bounded oracle and is replayed on the real code' % '; '.join(undecided),
+                                   'oracle': oname, 'witness': wit, 'search': summ, 'bounded': True}, open(path, 'w'), indent=1)
+                        found.append((full, path, wit))
         for u in undecided:
             print('UNDECIDED property=%s %s' % (prop, u))
+        if found:
+            for full, path, wit in found:
+                print('failed obligation: %s' % full)
+                print('  witness: %s -- %s' % (wit.get('case'), wit.get('detail')))
+                print('VIOLATION property=%s replay=%s' % (prop, path))
+            sys.exit(1)
         sys.exit(2)
     print('OK property=%s tier=%s obligations=%d discharged=%d wall=%.1fs' % (prop, tier, obligations, discharged, wall))
     sys.exit(0)
